@@ -116,9 +116,20 @@ def gen_case(r, i=0):
             "blocks": [("def", defs[j]) if kind == "def" else ("use", None) for kind, j in blocks]}
 
 
-def observe(m, case):
+def _converter(m, kind):
     md = m.create_markdown()
-    out = md(case["doc"])
+    if kind == "toc-hook":
+        # the TOC hook parses heading texts a second time, before the document's inline pass
+        from mistune.toc import add_toc_hook
+        add_toc_hook(md, 1, 6)
+    return md
+
+
+def observe(m, case):
+    doc = case["doc"]
+    kind = "toc-hook" if sum(map(ord, doc)) % 3 == 0 else "plain"
+    md = _converter(m, kind)
+    out = md(doc)
     res = []
     for j, (lab, form, place) in enumerate(case["uses"]):
         mark = "M%dx" % j
@@ -223,7 +234,7 @@ def oracle(ctx, extra):
             "rule": "1-5 labels (ASCII, German sharp s, Greek with final sigma, dotted capital I, multi-word), each defined 1-3 "
                     "times with case/white-space variants (tabs, newlines, runs) at top level, in a quote, a bullet or ordered "
                     "item, a quote in a list, or 4 containers deep; 1-7 uses (full, collapsed, shortcut form; in paragraphs, "
-                    "quotes, items, emphasis, headings) of defined and undefined labels; all blocks shuffled so uses come "
+                    "quotes, items, emphasis, headings) of defined and undefined labels; a third of the documents converted with add_toc_hook installed; all blocks shuffled so uses come "
                     "before and after definitions; expected = first definition in document order with the same key under "
                     "an independent statement of the normalisation; distinct by document",
             "samples": [json.dumps(cases[0]["doc"])]}
